@@ -1268,7 +1268,9 @@ def edge_family(seed, n, maxlen=2, budget=None):
             named = [sw("s0", "-v", "-l"), rf("r0", "count", "-d", "-D")] + ([ar("a0", "opt", "str", "-n", "-N")] if (i // 3) % 2 else [])
             d = mkdef(f"edge{seed}_{i}", level(named, tail), maxlen=maxlen, extras=(), spells=("sep", "glued"), words=("x",), clusters=True)
         elif k == 1:
-            a = ar("a0", ["one", "opt", "many"][(i // 3) % 3], ["str", "int", "os"][(i // 9) % 3], "-n", "--name")
+            # (short names of one, three and four bytes: lead bytes 0x6E, 0xE0, 0xF0)
+            a = ar("a0", ["one", "opt", "many"][(i // 3) % 3], ["str", "int", "os"][(i // 9) % 3],
+                   ["-n", "-%E0%B8%81", "-%F0%9F%A6%80"][(i // 3) % 3], "--name")
             named = [sw("s0", "-v", "--verbose"), a]
             d = mkdef(f"edge{seed}_{i}", level(named, tail), maxlen=maxlen, extras=("dd",) if (i // 3) % 2 else (), spells=("sep", "eq"),
                       words=("x",), eqvals=("", "x"), clusters=True)
